@@ -1,5 +1,642 @@
-/* unit engines (allocator, queue, barrier): placeholders until implemented */
-#include "sim.h"
-void mm_run(void) { sim_violation("-", "unimplemented", "mm engine"); }
-void mq_run(void) { sim_violation("-", "unimplemented", "mq engine"); }
-void bar_run(void) { sim_violation("-", "unimplemented", "bar engine"); }
+/* Unit simulations on the real code of single modules:
+ *   mm  - rollbackable allocator driven by operation histories with checkpoint / restore (the crash-like
+ *         fault) / replay / fossil collection against a shadow model                       (C05 C12 C13 C11)
+ *   mq  - inter-thread message queue with simulated producer/consumer threads              (C15)
+ *   bar - thread barrier with simulated threads                                            (C17) */
+#include "ranks.h"
+
+#include <datatypes/msg_queue.h>
+#include <mm/model_allocator.h>
+
+#include <errno.h>
+#include <stdlib.h>
+#include <string.h>
+
+extern uint64_t payload_hash(const void *p, unsigned n);
+
+/* =================================================================================== mm-sim */
+#define MM_SLOTS 12
+#define MM_MAXOPS 260
+enum mm_op { OP_MALLOC, OP_CALLOC, OP_REALLOC, OP_FREE, OP_WRITE, OP_CKPT, OP_NOP };
+
+struct mm_opdesc {
+	int op, slot;
+	uint32_t size, off, len;
+	uint64_t seed;
+};
+struct mm_slot {
+	unsigned char *p;
+	uint32_t size;
+	uint64_t hash;
+	bool live;
+};
+struct mm_snap {
+	struct mm_slot s[MM_SLOTS]; /* pointers are not part of the comparison */
+	bool ckpt_here;             /* a checkpoint was taken right after this op */
+};
+
+static struct mm_opdesc mm_ops[MM_MAXOPS];
+static struct mm_snap mm_snaps[MM_MAXOPS + 1]; /* snap[i] = state after i operations */
+static struct mm_slot mm_cur[MM_SLOTS];
+static struct lp_ctx mm_lp;
+static struct rank_api *mk;
+static uint64_t mm_restores, mm_replayed, mm_fossils, mm_arenas_max, mm_allocs, mm_ckpts, mm_restore_new_arena, mm_restore_on, mm_restore_between,
+    mm_restore_oldest, mm_null_ok;
+static const uint32_t mm_sizes[] = {0, 1, 15, 16, 17, 31, 32, 33, 63, 64, 65, 100, 128, 129, 255, 256, 257, 511, 512, 513, 1000, 1023, 1024, 1025, 4096,
+    20000, 32768, 65535, 65536, 65537, 1u << 20};
+
+static void mm_fill(unsigned char *p, uint32_t from, uint32_t to, uint64_t seed)
+{
+	for(uint32_t i = from; i < to; i++) {
+		seed = seed * 6364136223846793005ULL + 1442695040888963407ULL;
+		p[i] = (unsigned char)(seed >> 56);
+	}
+}
+
+static uint64_t mm_hash(const unsigned char *p, uint32_t n)
+{
+	if(n <= 2048)
+		return payload_hash(p, n);
+	uint64_t h = payload_hash(p, 1024) ^ (payload_hash(p + n - 1024, 1024) * 7);
+	for(uint32_t k = 1; k < 32; k++)
+		h = mix64(h, p[(uint64_t)n * k / 32]);
+	return h;
+}
+
+static struct buddy_state *mm_arena_of(const void *p)
+{
+	struct mm_state *mm = &mm_lp.mm_state;
+	for(array_count_t i = 0; i < array_count(mm->buddies); i++) {
+		struct buddy_state *b = array_get_at(mm->buddies, i);
+		if((const unsigned char *)p >= b->base_mem && (const unsigned char *)p < b->base_mem + (1u << B_TOTAL_EXP))
+			return b;
+	}
+	return NULL;
+}
+
+static uint64_t mm_allocated_bytes(void)
+{
+	struct mm_state *mm = &mm_lp.mm_state;
+	uint64_t sum = 0;
+	for(array_count_t b = 0; b < array_count(mm->buddies); b++) {
+		const struct buddy_state *bs = array_get_at(mm->buddies, b);
+		unsigned st_i[80], st_l[80], sp = 1;
+		st_i[0] = 0;
+		st_l[0] = B_TOTAL_EXP;
+		while(sp) {
+			unsigned i = st_i[--sp], l = st_l[sp], lon = bs->longest[i];
+			if(!lon)
+				sum += 1ull << l;
+			else if(lon != l && l > B_BLOCK_EXP) {
+				st_i[sp] = buddy_left_child(i);
+				st_l[sp++] = l - 1;
+				st_i[sp] = buddy_right_child(i);
+				st_l[sp++] = l - 1;
+			}
+		}
+	}
+	return sum;
+}
+
+/* invariants that must hold after every operation */
+static void mm_check_all(const char *when, int opi)
+{
+	struct mm_state *mm = &mm_lp.mm_state;
+	/* arenas sorted by address (the lookup relies on it) */
+	for(array_count_t i = 1; i < array_count(mm->buddies); i++)
+		if(array_get_at(mm->buddies, i - 1) >= array_get_at(mm->buddies, i))
+			sim_violation("C12", "arenas-unsorted", "%s op %d: arena list not sorted by address", when, opi);
+	uint64_t want = offsetof(struct mm_checkpoint, chkps) + sizeof(struct buddy_state *) +
+			(uint64_t)array_count(mm->buddies) * offsetof(struct buddy_checkpoint, base_mem) + mm_allocated_bytes();
+	if(mm->full_ckpt_size != want)
+		sim_violation("C05", "checkpoint-size", "%s op %d: allocator says a full checkpoint needs %llu bytes, the allocation trees need %llu",
+		    when, opi, (unsigned long long)mm->full_ckpt_size, (unsigned long long)want);
+	for(int k = 0; k < MM_SLOTS; k++) {
+		struct mm_slot *s = &mm_cur[k];
+		if(!s->live)
+			continue;
+		if(!mm_arena_of(s->p) || mm_arena_of(s->p) != mm_arena_of(s->p + s->size - 1))
+			sim_violation("C12", "outside-arena", "%s op %d: block %d [%p,+%u) is not inside one arena of the LP", when, opi, k, (void *)s->p,
+			    s->size);
+		if((uintptr_t)s->p & 15u)
+			sim_violation("C12", "misaligned", "%s op %d: block %d at %p is not 16-byte aligned", when, opi, k, (void *)s->p);
+		for(int j = 0; j < k; j++)
+			if(mm_cur[j].live && s->p < mm_cur[j].p + mm_cur[j].size && mm_cur[j].p < s->p + s->size)
+				sim_violation("C12", "overlap", "%s op %d: blocks %d and %d overlap", when, opi, j, k);
+		if(mm_hash(s->p, s->size) != s->hash)
+			sim_violation("C12", "content-changed", "%s op %d: content of block %d (%u bytes) changed by an operation on another block", when, opi,
+			    k, s->size);
+	}
+	if(array_count(mm->buddies) > mm_arenas_max)
+		mm_arenas_max = array_count(mm->buddies);
+}
+
+static void mm_expect_fail(void *p, const char *what, uint32_t size, uint64_t before_size, array_count_t before_arenas)
+{
+	struct mm_state *mm = &mm_lp.mm_state;
+	if(p)
+		sim_violation("C12", "bad-size-accepted", "%s(%u) returned a block instead of failing", what, size);
+	if(mm->full_ckpt_size != before_size || array_count(mm->buddies) != before_arenas)
+		sim_violation("C12", "failed-request-changed-state", "%s(%u) failed but changed the allocator state", what, size);
+	mm_null_ok++;
+}
+
+/* executes operation i on the real allocator; record = first execution (fills the shadow), else replay */
+static void mm_exec(int i)
+{
+	struct mm_opdesc *o = &mm_ops[i];
+	struct mm_state *mm = &mm_lp.mm_state;
+	uint32_t arena = 1u << B_TOTAL_EXP;
+	uint64_t bs = mm->full_ckpt_size;
+	array_count_t ba = array_count(mm->buddies);
+	struct mm_slot *s = o->slot >= 0 ? &mm_cur[o->slot] : NULL;
+	switch(o->op) {
+		case OP_MALLOC:
+		case OP_CALLOC: {
+			if(s->live)
+				break;
+			unsigned char *p;
+			if(o->op == OP_CALLOC) {
+				uint32_t nm = o->size && !(o->size % 3) ? 3 : 1;
+				p = mk->rs_calloc(nm, o->size / nm);
+			} else {
+				p = mk->rs_malloc(o->size);
+			}
+			if(o->size == 0 || o->size > arena) {
+				mm_expect_fail(p, o->op == OP_CALLOC ? "rs_calloc" : "rs_malloc", o->size, bs, ba);
+				break;
+			}
+			if(!p)
+				sim_violation("C12", "valid-request-failed", "allocation of %u bytes failed", o->size);
+			if(o->op == OP_CALLOC)
+				for(uint32_t k = 0; k < o->size; k++)
+					if(p[k])
+						sim_violation("C12", "calloc-not-zeroed", "rs_calloc(%u) returned non-zero memory at offset %u", o->size, k);
+			mm_fill(p, 0, o->size, o->seed);
+			s->p = p;
+			s->size = o->size;
+			s->hash = mm_hash(p, o->size);
+			s->live = true;
+			mm_allocs++;
+			break;
+		}
+		case OP_REALLOC: {
+			if(!s->live) {
+				/* realloc(NULL, n) behaves like malloc */
+				unsigned char *p = mk->rs_realloc(NULL, o->size);
+				if(o->size == 0 || o->size > arena) {
+					mm_expect_fail(p, "rs_realloc(NULL)", o->size, bs, ba);
+					break;
+				}
+				if(!p)
+					sim_violation("C12", "valid-request-failed", "rs_realloc(NULL, %u) failed", o->size);
+				mm_fill(p, 0, o->size, o->seed);
+				s->p = p;
+				s->size = o->size;
+				s->hash = mm_hash(p, o->size);
+				s->live = true;
+				break;
+			}
+			uint32_t old = s->size;
+			uint64_t pre = mm_hash(s->p, old < o->size ? old : o->size);
+			unsigned char *p = mk->rs_realloc(s->p, o->size);
+			if(o->size == 0 || o->size > arena) {
+				mm_expect_fail(p, "rs_realloc", o->size, bs, ba); /* the old block stays valid */
+				break;
+			}
+			if(!p)
+				sim_violation("C12", "valid-request-failed", "rs_realloc to %u bytes failed", o->size);
+			if(mm_hash(p, old < o->size ? old : o->size) != pre)
+				sim_violation("C12", "realloc-prefix", "rs_realloc %u -> %u did not preserve the common prefix", old, o->size);
+			if(o->size > old)
+				mm_fill(p, old, o->size, o->seed);
+			s->p = p;
+			s->size = o->size;
+			s->hash = mm_hash(p, o->size);
+			break;
+		}
+		case OP_FREE:
+			if(!s->live) {
+				mk->rs_free(NULL);
+				break;
+			}
+			mk->rs_free(s->p);
+			s->live = false;
+			break;
+		case OP_WRITE:
+			if(!s->live)
+				break;
+			{
+				uint32_t off = o->off % s->size, len = o->len;
+				if(off + len > s->size)
+					len = s->size - off;
+				mm_fill(s->p, off, off + len, o->seed);
+				s->hash = mm_hash(s->p, s->size);
+			}
+			break;
+		default:
+			break;
+	}
+}
+
+static void mm_compare_with_snapshot(int n_done, const char *when)
+{
+	struct mm_snap *sn = &mm_snaps[n_done];
+	for(int k = 0; k < MM_SLOTS; k++) {
+		if(mm_cur[k].live != sn->s[k].live)
+			sim_violation("C05", "live-set-after-restore", "%s: block %d is %s after restore+replay to position %d, was %s", when, k,
+			    mm_cur[k].live ? "live" : "gone", n_done, sn->s[k].live ? "live" : "gone");
+		if(!mm_cur[k].live)
+			continue;
+		if(mm_cur[k].size != sn->s[k].size || mm_hash(mm_cur[k].p, mm_cur[k].size) != sn->s[k].hash)
+			sim_violation("C05", "content-after-restore", "%s: block %d (%u bytes) differs after restore+replay to position %d", when, k,
+			    mm_cur[k].size, n_done);
+	}
+}
+
+void mm_run(void)
+{
+	mk = &RK[0];
+	struct sim_prng r;
+	prng_seed(&r, mix64((uint64_t)P.mseed, 0x3131));
+	int n_ops = (int)(P.u_ops < MM_MAXOPS - 1 ? P.u_ops : MM_MAXOPS - 1);
+	memset(&mm_lp, 0, sizeof(mm_lp));
+	memset(mm_cur, 0, sizeof(mm_cur));
+	*mk->p_current_lp() = &mm_lp;
+	mk->global_config->log_level = LOG_SILENT;
+	mk->model_allocator_lp_init(&mm_lp.mm_state);
+	uint32_t arena = 1u << B_TOTAL_EXP;
+	int big_bias = (int)prng_below(&r, 3); /* some histories use large blocks so that arenas multiply */
+	int ckpt_every = 1 + (int)prng_below(&r, 9);
+	int base = 0; /* history positions removed by fossil collection */
+	int n_done = 0;
+	memset(mm_snaps, 0, sizeof(mm_snaps));
+	mk->model_allocator_checkpoint_take(&mm_lp.mm_state, 0);
+	mm_snaps[0].ckpt_here = true;
+	mm_ckpts++;
+
+	while(n_done < n_ops) {
+		/* generate and execute the next operation */
+		struct mm_opdesc *o = &mm_ops[n_done];
+		uint64_t x = prng_next(&r);
+		o->slot = (int)(x % MM_SLOTS);
+		o->seed = prng_next(&r);
+		o->off = (uint32_t)(x >> 20);
+		o->len = 1 + (uint32_t)((x >> 40) % 40);
+		unsigned k = (unsigned)((x >> 8) % 16);
+		o->op = k < 5 ? OP_MALLOC : k < 7 ? OP_CALLOC : k < 10 ? OP_REALLOC : k < 13 ? OP_FREE : OP_WRITE;
+		uint32_t sz = mm_sizes[(x >> 12) % (sizeof(mm_sizes) / sizeof(*mm_sizes))];
+		if(sz > arena && ((x >> 50) & 7)) /* over-size requests are the exception */
+			sz = big_bias ? arena >> ((x >> 53) & 3) : 16;
+		if(big_bias == 2 && sz < arena / 8 && ((x >> 56) & 1))
+			sz = arena >> ((x >> 57) & 3);
+		o->size = sz;
+		mm_exec(n_done);
+		n_done++;
+		memcpy(mm_snaps[n_done].s, mm_cur, sizeof(mm_cur));
+		mm_snaps[n_done].ckpt_here = false;
+		mm_check_all("after", n_done - 1);
+		sim_event(0xA0, (uint64_t)o->op, ((uint64_t)o->slot << 32) | o->size);
+
+		if(prng_below(&r, 40) == 0) {
+			/* a request whose byte count does not fit size_t is an over-size request like any other */
+			struct mm_state *mm = &mm_lp.mm_state;
+			uint64_t bs = mm->full_ckpt_size;
+			array_count_t ba = array_count(mm->buddies);
+			void *p = mk->rs_calloc((size_t)-1 / 2 + 2, 2);
+			if(p)
+				sim_violation("C12", "bad-size-accepted", "rs_calloc(SIZE_MAX/2+2, 2) returned a block instead of failing");
+			mm_expect_fail(p, "rs_calloc(overflowing)", 0, bs, ba);
+		}
+		if(n_done % ckpt_every == 0 || prng_below(&r, 12) == 0) {
+			/* the next checkpoint runs under ASan: an under-counted size is a heap overflow right here */
+			mk->model_allocator_checkpoint_take(&mm_lp.mm_state, (array_count_t)(n_done - base));
+			mm_snaps[n_done].ckpt_here = true;
+			mm_ckpts++;
+		}
+		if(prng_below(&r, 10) == 0 && n_done > base) {
+			/* rollback: restore to an arbitrary earlier position, then replay (coast forward) up to it */
+			int target = base + (int)prng_below(&r, (uint64_t)(n_done - base + 1));
+			if(prng_below(&r, 4) == 0)
+				target = base; /* the oldest kept checkpoint */
+			struct mm_state *mm = &mm_lp.mm_state;
+			array_count_t arenas_before = array_count(mm->buddies);
+			array_count_t got = mk->model_allocator_checkpoint_restore(mm, (array_count_t)(target - base));
+			int from = base + (int)got;
+			if(from > target)
+				sim_violation("C05", "restore-after-target", "restore to %d used a checkpoint taken at %d", target, from);
+			if(!mm_snaps[from].ckpt_here)
+				sim_violation("C05", "restore-unknown-checkpoint", "restore to %d reports position %d where no checkpoint was taken", target, from);
+			for(int q = from + 1; q <= target; q++)
+				if(mm_snaps[q].ckpt_here) {
+					sim_violation("C05", "restore-not-latest", "restore to %d used the checkpoint at %d although one exists at %d", target, from, q);
+				}
+			if(from == target)
+				mm_restore_on++;
+			else
+				mm_restore_between++;
+			if(from == base)
+				mm_restore_oldest++;
+			/* the shadow at the checkpoint: same blocks at the same addresses as when it was taken */
+			memcpy(mm_cur, mm_snaps[from].s, sizeof(mm_cur));
+			unsigned empty_arenas = 0;
+			for(array_count_t a = 0; a < array_count(mm->buddies); a++)
+				empty_arenas += array_get_at(mm->buddies, a)->longest[0] == B_TOTAL_EXP;
+			if(array_count(mm->buddies) == arenas_before && empty_arenas)
+				mm_restore_new_arena++;
+			mm_check_all("after restore, before replay", from);
+			for(int q = from; q < target; q++) {
+				mm_exec(q);
+				mm_replayed++;
+			}
+			mm_check_all("after restore+replay", target);
+			mm_compare_with_snapshot(target, "rollback");
+			/* checkpoints and history above the target are gone; the shadow follows */
+			for(int q = target + 1; q <= n_done; q++)
+				mm_snaps[q].ckpt_here = false;
+			memcpy(mm_snaps[target].s, mm_cur, sizeof(mm_cur));
+			n_done = target;
+			mm_restores++;
+			sim_event(0xA1, (uint64_t)target, (uint64_t)from);
+		}
+		if(prng_below(&r, 14) == 0 && n_done > base) {
+			/* GVT advanced: everything up to an arbitrary committed frontier may be reclaimed */
+			int frontier = base + 1 + (int)prng_below(&r, (uint64_t)(n_done - base));
+			struct mm_state *mm = &mm_lp.mm_state;
+			array_count_t got = mk->model_allocator_fossil_lp_collect(mm, (array_count_t)(frontier - base));
+			if((int)got > frontier - base)
+				sim_violation("C13", "fossil-beyond-target", "allocator released history up to %u, the committed frontier is %d", got,
+				    frontier - base);
+			if(!array_count(mm->logs))
+				sim_violation("C13", "no-checkpoint-left", "fossil collection kept no checkpoint");
+			if(array_get_at(mm->logs, 0).ref_i != 0)
+				sim_violation("C13", "history-not-at-checkpoint", "oldest kept checkpoint has reference %u after re-basing",
+				    array_get_at(mm->logs, 0).ref_i);
+			base += (int)got;
+			if(!mm_snaps[base].ckpt_here)
+				sim_violation("C13", "kept-position-not-a-checkpoint", "history now starts at position %d where no checkpoint was taken", base);
+			/* every kept checkpoint must still be where the shadow expects it */
+			unsigned kept = 0;
+			for(int q = base; q <= n_done; q++)
+				kept += mm_snaps[q].ckpt_here;
+			if(kept != array_count(mm->logs))
+				sim_violation("C13", "checkpoint-count", "after fossil collection the allocator keeps %u checkpoints, %u were taken at kept positions",
+				    array_count(mm->logs), kept);
+			for(array_count_t l = 0; l < array_count(mm->logs); l++) {
+				int pos = base + (int)array_get_at(mm->logs, l).ref_i;
+				if(pos > n_done || !mm_snaps[pos].ckpt_here)
+					sim_violation("C13", "checkpoint-reference", "kept checkpoint %u refers to position %d where none was taken", l, pos);
+			}
+			mm_fossils++;
+			sim_event(0xA2, (uint64_t)frontier, (uint64_t)got);
+		}
+	}
+	/* freeing makes the space reusable: after freeing everything a maximal request needs no new arena */
+	for(int k = 0; k < MM_SLOTS; k++)
+		if(mm_cur[k].live) {
+			mk->rs_free(mm_cur[k].p);
+			mm_cur[k].live = false;
+		}
+	struct mm_state *mm = &mm_lp.mm_state;
+	array_count_t ar = array_count(mm->buddies);
+	if(ar) {
+		void *p = mk->rs_malloc(arena);
+		if(!p || array_count(mm->buddies) != ar)
+			sim_violation("C12", "space-not-reusable", "after freeing every block a request of one arena needed a new arena (%u -> %u)", ar,
+			    array_count(mm->buddies));
+		mk->rs_free(p);
+	}
+	mm_check_all("final", n_done);
+	mk->model_allocator_lp_fini(&mm_lp.mm_state);
+}
+
+/* =================================================================================== mq-sim */
+#define MQ_MAXT 8
+#define MQ_MAXMSG 400
+struct mq_msg {
+	struct lp_msg *m;
+	int dest_thr;
+	double ts;
+	uint64_t ins_begin, ins_end; /* global scheduling-point sequence numbers */
+	uint64_t ext_at;             /* when it was extracted (0 = not yet) */
+	int extracted;
+};
+static struct mq_msg mq_msgs[MQ_MAXMSG];
+static int mq_n;
+static int mq_threads, mq_arrived, mq_producers_done;
+static uint64_t mq_extracts, mq_peeks, mq_null_extracts, mq_concurrent_inserts, mq_cas_retries_seen, mq_antis;
+static int mq_inserting; /* inserts in progress */
+
+static int mq_barrier_pred(void *arg) { return mq_arrived >= *(int *)arg; }
+static int mq_done_pred(void *arg)
+{
+	(void)arg;
+	return mq_producers_done >= mq_threads;
+}
+
+static struct mq_msg *mq_find(struct lp_msg *m)
+{
+	for(int i = 0; i < mq_n; i++)
+		if(mq_msgs[i].m == m)
+			return &mq_msgs[i];
+	return NULL;
+}
+
+/* smallest timestamp among messages for thread r whose insert had returned before seq and that are not extracted */
+static double mq_bound(int r, uint64_t seq)
+{
+	double mn = __builtin_inf();
+	for(int i = 0; i < mq_n; i++) {
+		struct mq_msg *x = &mq_msgs[i];
+		if(x->dest_thr == r && x->ins_end && x->ins_end <= seq && !x->extracted && x->ts < mn)
+			mn = x->ts;
+	}
+	return mn;
+}
+
+static void mq_do_extract(int r)
+{
+	uint64_t begin = G.sps;
+	double bound = mq_bound(r, begin);
+	struct lp_msg *m = mk->msg_queue_extract();
+	mq_extracts++;
+	if(!m) {
+		mq_null_extracts++;
+		if(bound != __builtin_inf())
+			sim_violation("C15", "extract-missed", "thread %d: extraction found nothing although a message with t=%g had been inserted before it began",
+			    r, bound);
+		return;
+	}
+	struct mq_msg *x = mq_find(m);
+	if(!x)
+		sim_violation("C15", "extract-unknown", "thread %d extracted a message nobody inserted", r);
+	if(x->extracted++)
+		sim_violation("C15", "extract-twice", "thread %d extracted message t=%g twice", r, x->ts);
+	if(x->dest_thr != r)
+		sim_violation("C15", "extract-foreign", "thread %d extracted a message inserted for thread %d", r, x->dest_thr);
+	if(!x->ins_begin)
+		sim_violation("C15", "extract-before-insert", "message extracted before its insertion began");
+	if(x->ts > bound)
+		sim_violation("C15", "extract-not-minimum", "thread %d extracted t=%g although t=%g had been inserted before the extraction began", r, x->ts,
+		    bound);
+	x->ext_at = G.sps;
+	sim_event(0xB1, (uint64_t)r, (uint64_t)(x - mq_msgs));
+}
+
+static void *mq_thread(void *arg)
+{
+	int r = (int)(intptr_t)arg;
+	*mk->p_rid() = (rid_t)r;
+	mk->msg_queue_init();
+	mq_arrived++;
+	sim_progress();
+	int all = mq_threads;
+	sim_block_until(mq_barrier_pred, &all, "mq-start");
+	struct sim_prng rg;
+	prng_seed(&rg, mix64((uint64_t)P.mseed, 0x6000 + (uint64_t)r));
+	int n_ops = (int)P.u_ops;
+	for(int k = 0; k < n_ops; k++) {
+		unsigned what = (unsigned)prng_below(&rg, 10);
+		if(what < 5 && mq_n < MQ_MAXMSG) {
+			struct mq_msg *x = &mq_msgs[mq_n++];
+			struct lp_msg *m = calloc(1, sizeof(*m));
+			x->dest_thr = (int)prng_below(&rg, (uint64_t)mq_threads);
+			if(P.u_a == 1)
+				x->dest_thr = 0; /* all producers hammer one consumer */
+			m->dest = (lp_id_t)x->dest_thr; /* one LP per thread: lid_to_rid is the identity */
+			m->dest_t = x->ts = (double)prng_below(&rg, 4) * 0.5;
+			m->m_type = (uint32_t)prng_below(&rg, 3);
+			m->pl_size = 0;
+			m->raw_flags = prng_below(&rg, 6) == 0 ? MSG_FLAG_ANTI : 0;
+			mq_antis += m->raw_flags != 0;
+			x->m = m;
+			x->ins_begin = G.sps ? G.sps : 1;
+			if(mq_inserting)
+				mq_concurrent_inserts++;
+			mq_inserting++;
+			mk->msg_queue_insert(m);
+			mq_inserting--;
+			x->ins_end = G.sps;
+			sim_progress();
+			sim_event(0xB0, (uint64_t)x->dest_thr, (uint64_t)(x - mq_msgs));
+		} else if(what < 8) {
+			mq_do_extract(r);
+		} else {
+			uint64_t begin = G.sps;
+			double bound = mq_bound(r, begin);
+			simtime_t t = mk->msg_queue_time_peek();
+			mq_peeks++;
+			if(t > bound)
+				sim_violation("C15", "peek-not-lower-bound", "thread %d: minimum-time query returned %g although t=%g was inserted before it began", r,
+				    t, bound);
+		}
+	}
+	mq_producers_done++;
+	sim_progress();
+	sim_block_until(mq_done_pred, NULL, "mq-quiesce");
+	/* nothing is being inserted any more: everything inserted for this thread must come out exactly once */
+	for(;;) {
+		uint64_t before = mq_extracts - mq_null_extracts;
+		mq_do_extract(r);
+		if(mq_extracts - mq_null_extracts == before)
+			break;
+	}
+	return NULL;
+}
+
+void mq_run(void)
+{
+	mk = &RK[0];
+	mq_threads = (int)(P.u_threads < MQ_MAXT ? P.u_threads : MQ_MAXT);
+	mk->global_config->n_threads = (unsigned)mq_threads;
+	mk->global_config->lps = (lp_id_t)mq_threads;
+	mk->global_config->log_level = LOG_SILENT;
+	*mk->n_lps_node = (lp_id_t)mq_threads;
+	*mk->lid_node_first = 0;
+	*mk->n_nodes = 1;
+	mk->msg_queue_global_init();
+	for(int t = 0; t < mq_threads; t++)
+		sim_spawn(VTK_UNIT, 0, mq_thread, (void *)(intptr_t)t);
+	sim_run_all();
+	for(int i = 0; i < mq_n; i++)
+		if(mq_msgs[i].extracted != 1)
+			sim_violation("C15", "lost", "message %d (t=%g for thread %d) was extracted %d times", i, mq_msgs[i].ts, mq_msgs[i].dest_thr,
+			    mq_msgs[i].extracted);
+}
+
+/* =================================================================================== bar-sim */
+#define BAR_MAXT 8
+#define BAR_MAXUSE 64
+static int bar_threads, bar_uses;
+static uint64_t bar_enter[BAR_MAXUSE][BAR_MAXT], bar_leave[BAR_MAXUSE][BAR_MAXT];
+static int bar_leaders[BAR_MAXUSE], bar_entered[BAR_MAXUSE];
+static uint64_t bar_overlaps;
+
+static void *bar_thread(void *arg)
+{
+	int r = (int)(intptr_t)arg;
+	*mk->p_rid() = (rid_t)r;
+	for(int u = 0; u < bar_uses; u++) {
+		bar_enter[u][r] = G.sps + 1;
+		bar_entered[u]++;
+		if(u > 0 && bar_entered[u - 1] == bar_threads) {
+			/* a fast thread re-enters while slower ones are still leaving the previous use */
+			for(int t = 0; t < bar_threads; t++)
+				if(!bar_leave[u - 1][t]) {
+					bar_overlaps++;
+					break;
+				}
+		}
+		sim_progress();
+		bool leader = mk->sync_thread_barrier();
+		if(bar_entered[u] != bar_threads)
+			sim_violation("C17", "passed-early", "thread %d left use %d of the barrier when only %d of %d threads had entered it", r, u,
+			    bar_entered[u], bar_threads);
+		bar_leave[u][r] = G.sps + 1;
+		if(leader && bar_leaders[u]++)
+			sim_violation("C17", "two-leaders", "use %d of the barrier elected more than one leader", u);
+		sim_event(0xC0, (uint64_t)u, ((uint64_t)r << 1) | leader);
+		sim_progress();
+	}
+	return NULL;
+}
+
+void bar_run(void)
+{
+	mk = &RK[0];
+	bar_threads = (int)(P.u_threads < BAR_MAXT ? P.u_threads : BAR_MAXT);
+	bar_uses = (int)(P.u_ops < BAR_MAXUSE ? P.u_ops : BAR_MAXUSE);
+	mk->global_config->n_threads = (unsigned)bar_threads;
+	for(int t = 0; t < bar_threads; t++)
+		sim_spawn(VTK_UNIT, 0, bar_thread, (void *)(intptr_t)t);
+	sim_run_all();
+	for(int u = 0; u < bar_uses; u++)
+		if(bar_leaders[u] != 1)
+			sim_violation("C17", "no-leader", "use %d of the barrier elected %d leaders", u, bar_leaders[u]);
+}
+
+void units_fill_result(char *buf, size_t n)
+{
+	if(P.engine == 1)
+		snprintf(buf, n,
+		    "eng=mm ops=%lld allocs=%llu ckpts=%llu restores=%llu replayed=%llu fossils=%llu arenas=%llu r_on=%llu r_between=%llu r_oldest=%llu "
+		    "r_newarena=%llu nullok=%llu fw=%llu",
+		    (long long)P.u_ops, (unsigned long long)mm_allocs, (unsigned long long)mm_ckpts, (unsigned long long)mm_restores,
+		    (unsigned long long)mm_replayed, (unsigned long long)mm_fossils, (unsigned long long)mm_arenas_max, (unsigned long long)mm_restore_on,
+		    (unsigned long long)mm_restore_between, (unsigned long long)mm_restore_oldest, (unsigned long long)mm_restore_new_arena,
+		    (unsigned long long)mm_null_ok, (unsigned long long)mm_allocs);
+	else if(P.engine == 2)
+		snprintf(buf, n, "eng=mq thr=%d msgs=%d extracts=%llu nullext=%llu peeks=%llu coninsert=%llu antis=%llu fw=%d", mq_threads, mq_n,
+		    (unsigned long long)mq_extracts, (unsigned long long)mq_null_extracts, (unsigned long long)mq_peeks,
+		    (unsigned long long)mq_concurrent_inserts, (unsigned long long)mq_antis, mq_n);
+	else
+		snprintf(buf, n, "eng=bar thr=%d uses=%d overlaps=%llu fw=%d", bar_threads, bar_uses, (unsigned long long)bar_overlaps, bar_uses);
+}
+
+void units_on_hang(const char *cls, const char *sig, const char *detail)
+{
+	if(P.engine == 3)
+		sim_violation("C17", cls, "barrier never released its threads: sig={%s} %s", sig, detail);
+	if(P.engine == 2)
+		sim_violation("C15", cls, "queue operations never finished: sig={%s} %s", sig, detail);
+}
